@@ -1,7 +1,7 @@
 """C03 - no future is lost: once the underlying work is finished, the future finishes,
 and no later than the virtual time implied by the configuration."""
 from mc.harness import harness, oracle
-from mc.kit import E, E2, ProbeFuture, snapshot, brief
+from mc.kit import E, E2, ProbeFuture, StubbornFuture, snapshot, brief
 from mc.sched import EPS
 from more_executors import Executors
 from more_executors._impl import futures as F
@@ -210,7 +210,7 @@ for _l in ("retry", "poll", "throttle", "timeout", "map"):
 
 # ------------------------------------------------------------------ combinators
 COMB = ("zip", "and", "or", "sequence", "nocancel", "proxy", "f_map", "f_flat_map", "f_timeout", "apply")
-OUTC = ("value", "falsy", "exception", "cancel")
+OUTC = ("value", "falsy", "exception", "cancel", "refuse_then_cancel")
 
 
 def _cparams():
@@ -228,7 +228,8 @@ def _cparams():
 
 
 def cbody(mc, p):
-    ins = [ProbeFuture(mc, "in%d" % i) for i in range(len(p["outs"]))]
+    ins = [(StubbornFuture if o == "refuse_then_cancel" else ProbeFuture)(mc, "in%d" % i)
+           for i, o in enumerate(p["outs"])]
     c = p["comb"]
     if c == "zip":
         out = F.f_zip(*ins)
@@ -256,7 +257,16 @@ def cbody(mc, p):
         def run():
             f = ins[i]
             o = p["outs"][i]
-            if o == "cancel":
+            if o == "refuse_then_cancel":
+                # a cancel through the output is refused by this input; later the input is
+                # cancelled directly
+                mc.call("out.cancel", out.cancel)
+                mc.point()
+                for _ in range(3):
+                    if mc.call("ext.cancel", f.cancel):
+                        break
+                f.set_running_or_notify_cancel()
+            elif o == "cancel":
                 mc.call("ext.cancel", f.cancel)
                 f.set_running_or_notify_cancel()
             elif f.set_running_or_notify_cancel():
@@ -281,7 +291,8 @@ def ccheck(x):
         return
     if out[0] == "pending":
         x.require(False, "output-pending-after-inputs-finished", comb=x.p["comb"],
-                  cancelled_input="cancel" in x.p["outs"], detail=repr((x.p["outs"], x.obs["ins"])))
+                  cancelled_input=any(o in ("cancel", "refuse_then_cancel") for o in x.p["outs"]),
+                  detail=repr((x.p["outs"], x.obs["ins"])))
     e = x.events("out.done")
     last = [q for q in x.events("in.resolved")]
     if e and last:
